@@ -352,6 +352,43 @@ pub fn tamper_sweep(a: &Args) -> Report {
       offsets.sort();
       offsets.dedup();
     }
+    // faults in TWO bytes of the first share's tag / ciphertexts: the same mask at offsets 16, 32,
+    // 48, 1 and 8 apart, and two bytes exchanged (differences that cancel under a folded comparison)
+    for (fname, (fa, fz)) in [("J", lay.j), ("C", lay.c), ("D", lay.d)] {
+      if fz < fa + 2 {
+        continue;
+      }
+      let flen = fz - fa;
+      for i in (0..flen).step_by(if all { 1 } else { 5 }) {
+        for dist in [16usize, 32, 48, 1, 8] {
+          if i + dist >= flen {
+            continue;
+          }
+          for kind in 0..3 {
+            let mut b = shares[0].clone();
+            match kind {
+              0 => { b[fa + i] ^= 0x01; b[fa + i + dist] ^= 0x01; }
+              1 => { b[fa + i] ^= 0xa5; b[fa + i + dist] ^= 0xa5; }
+              _ => { b.swap(fa + i, fa + i + dist); }
+            }
+            if b == shares[0] {
+              continue;
+            }
+            let mut coll: Vec<Vec<u8>> = shares.clone();
+            coll[0] = b;
+            let dec: Option<Vec<Share>> = coll.iter().map(|x| guard(|| Share::from_bytes(x)).ok().flatten()).collect();
+            let dec = match dec { Some(d) => d, None => continue };
+            rep.evaluations += 1;
+            rep.nontrivial(format!("{si}:pair:{fname}:{i}:{dist}:{kind}"));
+            if let Guard::Done(Ok(_)) = guard(|| share_recover(&dec).map(|c| c.get_message()).map_err(|e| e.to_string())) {
+              rep.violation("C05", "share_recover", &format!("altered-first-share-accepted:{fname}-two-bytes"),
+                format!("two altered bytes of field {fname} of the share that supplies the ciphertext (offsets {i} and {}, kind {kind}) were accepted", i + dist),
+                json!({"scenario": si, "threshold": t, "field": fname, "offsets": [i, i + dist], "kind": kind, "star_level": star}));
+            }
+          }
+        }
+      }
+    }
     for pos in [0usize, 1, *t as usize] {
       // pos: which share of the collection is altered (0 = the one supplying C/D/J;
       // 1 = among the first t distinct; t = surplus)
